@@ -19,6 +19,12 @@ sources:   copy() / reverse_copy() (and the pickle round trip) promise an INDEPE
            model state it had when it was copied (spec: src/sabs, SourceRefines; negative control
            ShallowCopy = TRUE -> TLC reports SourceInverse violated).  Sources of derivations
            documented as sharing (reverse(), filter_*, choose_*) are not observed.
+failures:  a read() whose input or tag_filter raises part-way, a qread() of a truncated pickle and
+           other raising calls (insert(pkg, None), a raising filter, read(None)) are injected in the
+           replay and in the recorder, on empty and non-empty collections, and the history CONTINUES
+           on the same object: the exception must propagate and the object must be consistent
+           (unchanged, or a line-prefix collection / the new collection: spec ReadFails / QReadFails;
+           negative controls NonAtomicRead, NonAtomicQread -> TLC reports Inverse violated).
 known finding: a replayed behaviour that diverges from the (deviation-off) model is recorded as a
            trace and handed to TLC with DEV=1 -- only while C20-insert-chars is open.  If TLC
            explains it with the deviation-on operators, every deviation step is counted with
@@ -28,6 +34,7 @@ known finding: a replayed behaviour that diverges from the (deviation-off) model
 """
 import io
 import json
+import pickle
 
 import core
 from lts import LTS
@@ -39,6 +46,7 @@ MANIFEST = dict(
     design="5 (C20)")
 
 KNOWN = "C20-insert-chars"
+KNOWN_Q = "C20-qread-nonatomic"     # fixed by 65b1608: nothing is suppressed unless it is re-opened
 JUNK = ("_zz", "_")        # names outside every alphabet used by the concretizer
 TRACE_MOD, TRACE_CFG = "TraceDebtags", "TraceDebtags.cfg"
 
@@ -105,6 +113,56 @@ def do_call(cur, st):
             return new, ""
         if op == "facet":
             return cur.facet_collection(), ""
+        if op == "read_fail":
+            text = st["text"]
+            if st["mode"] == "source":
+                def source():
+                    for i, line in enumerate(text):
+                        if i == st["m"]:
+                            raise IOError("injected input failure")
+                        yield line
+                    raise IOError("injected input failure")
+                cur.read(source(), None)
+            else:
+                calls = [0]
+
+                def strict(tag):
+                    calls[0] += 1
+                    if calls[0] == st["fcall"]:
+                        raise ValueError("injected filter failure")
+                    return True
+                cur.read(iter(text), strict)
+            return cur, ""
+        if op == "qread_fail":
+            other = debtags.DB()
+            other.read(iter(st["text"]))
+            buf = io.BytesIO()
+            other.qwrite(buf)
+            data = buf.getvalue()
+            probe = io.BytesIO(data)
+            pickle.load(probe)
+            first = probe.tell()                      # end of the first pickle
+            if st["k"] == 0:
+                cut = int(st["cutfrac"] * first)
+            else:
+                cut = first + int(st["cutfrac"] * (len(data) - first))
+            cur.qread(io.BytesIO(data[:cut]))
+            return cur, ""
+        if op == "probe":                             # calls expected to raise; the result is dropped
+            w = st["what"]
+            if w == "insert_none":
+                cur.insert(st["a"], None)
+            elif w == "insert_int":
+                cur.insert(st["a"], 5)
+            elif w == "filter_raises":
+                cur.filter_packages(lambda p: 1 // 0)
+            elif w == "filter_tags_raises":
+                cur.filter_tags(lambda t: 1 // 0)
+            elif w == "choose_none":
+                cur.choose_packages(None)
+            elif w == "read_none":
+                cur.read(None)
+            return cur, ""
         S = set(st["s"])
         if op == "choose":
             return cur.choose_packages(list(st["s"])), ""
@@ -184,6 +242,7 @@ def enc_dict(d):
 
 
 COPY_OPS = ("copy", "reverse_copy", "pickle")
+FAIL_OPS = ("read_fail", "qread_fail", "probe")
 
 
 def event_of(st, exc, db, rdb, answers=None, source=None):
@@ -199,6 +258,16 @@ def event_of(st, exc, db, rdb, answers=None, source=None):
     elif op == "insert":
         e["a"] = enc(st["a"])
         e["s"] = enc_set(st["s"])
+    elif op == "read_fail":
+        e["lines"] = [{"pkgs": enc_set(p), "tags": enc_set(t)} for p, t in st["lines"]]
+        e["drop"] = []
+        e["k"] = st["k"]
+        e["want"] = st["want"]
+    elif op == "qread_fail":
+        e["lines"] = [{"pkgs": enc_set(p), "tags": enc_set(t)} for p, t in st["lines"]]
+        e["k"] = st["k"]
+    elif op == "probe":
+        pass
     elif op == "q":
         a = answers
         if a is None:
@@ -252,6 +321,13 @@ def describe(st):
         return "read(%r%s)" % ("".join(st["text"]), ", tag_filter=not in %r" % (sorted(st["drop"]),) if st["usefilter"] else "")
     if op == "insert":
         return "insert(%r, %r)" % (st["a"], sorted(st["s"]))
+    if op == "read_fail":
+        return "read(%r) FAILING %s" % ("".join(st["text"]), "in the input after %d lines" % st["m"] if st["mode"] == "source"
+                                        else "in tag_filter at its call %d" % st["fcall"])
+    if op == "qread_fail":
+        return "qread(pickle of %r truncated in the %s pickle)" % ("".join(st["text"]), "first" if st["k"] == 0 else "second")
+    if op == "probe":
+        return "probe %s" % st["what"]
     if op == "q":
         return "queries"
     if "s" in st:
@@ -297,6 +373,17 @@ def concretize_step(e, conc, rng, junk):
                 "usefilter": bool(drop) or rng.random() < 0.5}
     if op == "insert":
         return {"op": "insert", "a": conc.name(e["a"]), "s": sorted(conc.names(e["s"]))}
+    if op in ("read_fails", "qread_fails"):
+        # the line ORDER is part of the case (prefixes): no shuffling here
+        glines = [(sorted(conc.names(ln["pkgs"])), sorted(conc.names(ln["tags"]))) for ln in e["lines"]]
+        text = ["%s: %s\n" % (", ".join(p), ", ".join(t)) if t else "%s\n" % ", ".join(p) for p, t in glines]
+        k = e["k"]
+        if op == "qread_fails":
+            return {"op": "qread_fail", "text": text, "lines": glines, "k": k, "cutfrac": rng.random()}
+        st = {"op": "read_fail", "text": text, "lines": glines, "k": k, "m": k, "mode": "source", "fcall": 0, "want": "OSError"}
+        if k < len(glines) and glines[k][1] and rng.random() < 0.5:
+            st.update(mode="filter", fcall=1 + sum(len(t) for _, t in glines[:k]), want="ValueError")
+        return st
     if op == "reverse":
         return {"op": rng.choice(["reverse", "reverse_copy"])}
     if op == "copy":
@@ -381,7 +468,7 @@ def compare_queries(cur, table, conc, rng, junk):
     return None
 
 
-def replay_path(plan, tos, tables, conc, rng, junk, deep, froms=None):
+def replay_path(plan, tos, tables, conc, rng, junk, deep, froms=None, alloweds=None):
     """step the real object through `plan`, comparing with the model states `tos` (and the query
     tables) after each call; the source of the last copy must stay the model state `froms[i]` it
     was copied in.  returns None or (step index, message) of the first divergence"""
@@ -392,7 +479,15 @@ def replay_path(plan, tos, tables, conc, rng, junk, deep, froms=None):
     for i, st in enumerate(plan):
         before = cur
         cur, exc = do_call(cur, st)
-        if exc:
+        if st["op"] in ("read_fail", "qread_fail"):
+            if (exc != st["want"]) if st["op"] == "read_fail" else (not exc):
+                return i, "step %d %s: expected the injected exception to propagate, got %r" % (i + 1, describe(st), exc or "no exception")
+            m = compare_state(cur, tos[i], conc)
+            if m is not None and alloweds is not None:
+                if any(compare_state(cur, a, conc) is None for a in alloweds[i]):
+                    return None          # another consistent outcome the statement allows: the path ends here
+                return i, "step %d %s: the object is none of the consistent collections allowed after the failure: %s" % (i + 1, describe(st), m)
+        elif exc:
             return i, "step %d %s raised %s" % (i + 1, describe(st), exc)
         if st["op"] in COPY_OPS and froms is not None:
             srcobj, srcstate, srcstep = before, froms[i], i + 1
@@ -427,7 +522,7 @@ def corrupt(t, how):
     t = copy.deepcopy(t)
     evs = t["events"]
     for i, e in enumerate(evs):
-        if how == "drop-member" and e["op"] != "q" and not e["exc"] and any(len(x[1]) for x in e["rdb"]):
+        if how == "drop-member" and e["op"] not in ("q",) + FAIL_OPS and not e["exc"] and any(len(x[1]) for x in e["rdb"]):
             for x in e["rdb"]:
                 if x[1]:
                     x[1].pop()
@@ -446,6 +541,12 @@ def corrupt(t, how):
         if how == "source-changed" and e["slive"] and e["op"] not in COPY_OPS and e["srdb"]:
             e["srdb"][0][1] = e["srdb"][0][1] + [[0x7a, 0x7a]]
             return {"events": evs[:i + 1]}
+        if how == "fail-partial" and e["op"] in ("read_fail", "qread_fail") and e["db"] and e["rdb"]:
+            e["db"] = []                 # new (empty) package index with the old tag index
+            return {"events": evs[:i + 1]}
+        if how == "fail-swallowed" and e["op"] == "read_fail":
+            e["exc"] = ""
+            return {"events": evs[:i + 1]}
         if how == "extra-key" and e["op"] != "q" and not e["exc"]:
             e["db"] = e["db"] + [[[0x7a, 0x7a, 0x7a, 0x7a], []]]
             return {"events": evs[:i + 1]}
@@ -454,7 +555,7 @@ def corrupt(t, how):
 
 def make_controls(traces):
     out = []
-    for how in ("drop-member", "card", "fake-dev", "exc", "extra-key", "source-changed"):
+    for how in ("drop-member", "card", "fake-dev", "exc", "extra-key", "source-changed", "fail-partial", "fail-swallowed"):
         for t in traces:
             c = corrupt(t, how)
             if c:
@@ -464,31 +565,32 @@ def make_controls(traces):
 
 
 def judge(ctx, traces, controls=()):
-    """TLC validates the traces.  returns (rejected ids (1-based), {id: deviation steps},
-    {rejected id: number of explained events})"""
+    """TLC validates the traces.  returns (rejected ids (1-based), {id: [markers of deviation steps]},
+    {rejected id: number of explained events}); marker 1 = C20-insert-chars, 2 = C20-qread-nonatomic"""
     dev = "1" if ctx.known_open(KNOWN) else "0"
-    acc, _, r = core.validate_traces(ctx, TRACE_MOD, TRACE_CFG, traces,
-                                     extra_env={"TRACE_DIAG": "0", "DEV": dev}, controls=list(controls))
+    devq = "1" if ctx.known_open(KNOWN_Q) else "0"
+    env = {"TRACE_DIAG": "0", "DEV": dev, "DEVQ": devq}
+    acc, _, r = core.validate_traces(ctx, TRACE_MOD, TRACE_CFG, traces, extra_env=env, controls=list(controls))
     devsteps = {}
     for v in r.printed.get("AT", []):
-        if len(v) >= 3 and v[2] == 1 and v[0] <= len(traces):
-            devsteps[v[0]] = devsteps.get(v[0], 0) + 1
+        if len(v) >= 3 and v[2] in (1, 2) and v[0] <= len(traces):
+            devsteps.setdefault(v[0], []).append(v[2])
     rejected = [i for i in range(1, len(traces) + 1) if i not in acc]
     info = {}
     if rejected:
         sub = [traces[i - 1] for i in rejected[:20]]
-        _, prog, _ = core.validate_traces(ctx, TRACE_MOD, TRACE_CFG, sub,
-                                          extra_env={"TRACE_DIAG": "1", "DEV": dev})
+        _, prog, _ = core.validate_traces(ctx, TRACE_MOD, TRACE_CFG, sub, extra_env=dict(env, TRACE_DIAG="1"))
         for j, i in enumerate(rejected[:20]):
             info[i] = prog.get(j + 1, 0)
     return rejected, devsteps, info
 
 
 def count_known(ctx, devsteps, ids):
+    """one known_hit per deviation step TLC needed in an accepted trace"""
     n = 0
     for i in ids:
-        for _ in range(devsteps.get(i, 0)):
-            ctx.known_hit(KNOWN)
+        for kind in devsteps.get(i, []):
+            ctx.known_hit(KNOWN if kind == 1 else KNOWN_Q)
             n += 1
     return n
 
@@ -565,7 +667,25 @@ def record_history(rng, nops, maxpk):
         text, glines = read_text(rng, lines)
         step({"op": "read", "text": text, "lines": glines, "drop": sorted(drop), "usefilter": bool(drop) or rng.random() < 0.3})
     ops = (["insert"] * 8 + ["reverse", "reverse_copy", "copy", "pickle", "choose", "choose_copy", "filter_p",
-           "filter_p_copy", "filter_pt", "filter_pt_copy", "filter_t", "filter_t_copy", "facet", "q", "q", "q"])
+           "filter_p_copy", "filter_pt", "filter_pt_copy", "filter_t", "filter_t_copy", "facet", "q", "q", "q",
+           "read_fail", "read_fail", "qread_fail", "probe"])
+
+    def some_lines():
+        """1-4 record lines over distinct packages (they may or may not be in the collection already)"""
+        names = rng.sample(pk_pool, min(len(pk_pool), rng.randint(1, 5)))
+        glines, text, isrec = [], [], []
+        while names:
+            grp = [names.pop()]
+            if names and rng.random() < 0.25:
+                grp.append(names.pop())
+            tags = rng.sample(tg_pool, rng.randint(0, min(3, len(tg_pool))))
+            glines.append((sorted(grp), sorted(tags)))
+            text.append("%s: %s\n" % (", ".join(grp), ", ".join(tags)) if tags else "%s\n" % ", ".join(grp))
+            isrec.append(True)
+            if rng.random() < 0.15:
+                text.append("\n")
+                isrec.append(False)
+        return glines, text, isrec
     for _ in range(nops):
         op = rng.choice(ops)
         keys = sorted(cur.db) if isinstance(cur.db, dict) else []
@@ -595,6 +715,27 @@ def record_history(rng, nops, maxpk):
                 clean[0] = False
             step({"op": op})
             faceted = True
+        elif op == "read_fail":
+            glines, text, isrec = some_lines()
+            ncalls = sum(len(t) for _, t in glines)
+            if ncalls and rng.random() < 0.5:
+                c = rng.randint(1, ncalls)
+                k, seen = 0, 0
+                for _, t in glines:                 # complete lines before the failing filter call
+                    if seen + len(t) >= c:
+                        break
+                    seen += len(t)
+                    k += 1
+                step({"op": "read_fail", "text": text, "lines": glines, "k": k, "m": 0, "mode": "filter", "fcall": c, "want": "ValueError"})
+            else:
+                m = rng.randint(0, len(text))
+                step({"op": "read_fail", "text": text, "lines": glines, "k": sum(isrec[:m]), "m": m, "mode": "source", "fcall": 0, "want": "OSError"})
+        elif op == "qread_fail":
+            glines, text, _ = some_lines()
+            step({"op": "qread_fail", "text": text, "lines": glines, "k": rng.randint(0, 1), "cutfrac": rng.random()})
+        elif op == "probe":
+            what = rng.choice(["insert_none", "insert_int", "filter_raises", "filter_tags_raises", "choose_none", "read_none"])
+            step({"op": "probe", "what": what, "a": rname(rng, 2, 5, alpha)})
         elif op == "q":
             probe = rng.sample(keys, min(len(keys), 4)) + rng.sample(rkeys, min(len(rkeys), 4)) + [rname(rng, 1, 4, alpha)]
             step({"op": "q", "names": probe})
@@ -642,7 +783,9 @@ def load_lts(ctx, cfg):
     for e in edges:
         e["from"] = canon(e["from"])
         e["to"] = canon(e["to"])
-        e["args"] = [e["a"], e["s"], e["lines"]]
+        e["args"] = [e["a"], e["s"], e["lines"], e.get("k")]
+        if "allowed" in e:
+            e["allowed"] = [canon(x) for x in e["allowed"]]
     g = LTS(edges, canon({"P": [], "T": [], "R": []}))
     if len(g.states) != r.distinct or any(k not in tables for k in g.states):
         raise core.MachineryError("LTS incomplete: %d states printed, TLC found %d, %d tables"
@@ -660,7 +803,7 @@ def skey_state(s):
 
 
 def strip_edge(e):
-    return {k: e[k] for k in ("from", "op", "a", "s", "lines", "to")}
+    return {k: e[k] for k in ("from", "op", "a", "s", "lines", "k", "allowed", "to") if k in e}
 
 
 def run(ctx):
@@ -670,6 +813,7 @@ def run(ctx):
     ctx.assumptions += [
         "model constants: packages p/ab/cdc (lengths 1,2,3) x tags fg::h fg::i j::h (thorough: also 4 packages, no LTS); closed state space: histories of any length over these names",
         "domain: insert gets a fresh package name; read gets each package on one line; facet_collection on facet::name tags; choose_packages_copy gets present packages (the rest is executed, any outcome accepted)",
+        "a read()/qread() that raises part-way and other raising calls are part of a history: the exception must propagate and the object must stay consistent (unchanged or a line-prefix / the new collection; which one is unspecified)",
         "one current object per history plus the retained source of the last copy()/reverse_copy()/pickle round trip (must stay unchanged); sources of derivations documented as sharing are not observed",
         "concretization of names is sampled (seeded); trusted: TLC, the projection of DB.db/DB.rdb, the concretizer",
         "known finding %s is %s: divergences TLC explains with the deviation-on operators are %s"
@@ -678,7 +822,7 @@ def run(ctx):
     # 1. design level.  The closed configurations and the two negative controls do not depend on
     #    each other or on /repo: they run beside the LTS emission and the replay (joined in 2c).
     from concurrent.futures import ThreadPoolExecutor
-    pool = ThreadPoolExecutor(4)
+    pool = ThreadPoolExecutor(5)
 
     def bg(cfg, workers):
         return pool.submit(ctx.tlc, "Debtags", cfg, count=False, workers=workers)
@@ -686,6 +830,8 @@ def run(ctx):
     f_src = bg("MC_Debtags_src_quick.cfg" if quick else "MC_Debtags_src.cfg", 4)   # retained source of copies
     f_sh = bg("MC_Debtags_shallow.cfg", 1)      # negative control: sets shared -> SourceInverse violated
     f_dev = bg("MC_Debtags_dev.cfg", 1)         # negative control: named deviation ON -> Inverse violated
+    f_na = bg("MC_Debtags_nonatomic.cfg", 1)    # negative control: read() binds db first -> Inverse violated
+    f_nq = bg("MC_Debtags_qread.cfg", 1)        # negative control: qread() binds db first -> Inverse violated
     if quick:
         f_closed = bg("MC_Debtags.cfg", 4)                                         # 3 packages x 3 tags
         f_big = None
@@ -699,7 +845,8 @@ def run(ctx):
         """results of the background runs; a violated design configuration is a specification defect"""
         out = {}
         for name, f, want in (("closed", f_closed, None), ("big", f_big, None), ("src", f_src, None),
-                              ("shallow", f_sh, ("SourceInverse", "SourceRefines")), ("dev", f_dev, ("Inverse",))):
+                              ("shallow", f_sh, ("SourceInverse", "SourceRefines")), ("dev", f_dev, ("Inverse",)),
+                              ("nonatomic", f_na, ("Inverse",)), ("qread", f_nq, ("Inverse",))):
             if f is None:
                 continue
             r = f.result()
@@ -738,7 +885,7 @@ def run(ctx):
         tos = [e["to"] for e in path]
         tabs = [tables[e["_t"]] for e in path]
         n_replayed += 1
-        d = replay_path(plan, tos, tabs, conc, rng, junk, deep, [e["from"] for e in path])
+        d = replay_path(plan, tos, tabs, conc, rng, junk, deep, [e["from"] for e in path], [e.get("allowed") for e in path])
         if d is None:
             return
         names = [conc.name(n) for n in model_names]
@@ -753,6 +900,7 @@ def run(ctx):
             diverged.append((case, d[1], {"events": events}))
 
     copy_edge = {k: [x for x in outs if x["op"] == "copy"][0] for k, outs in g.out.items()}
+    fail_edges = {k: [x for x in outs if x["op"] in ("read_fails", "qread_fails")] for k, outs in g.out.items()}
     # 2a. every transition of the LTS (prefix = shortest path from DB())
     nconc = 2
     concs = [Conc(canonical=True)] + [Conc(rng) for _ in range(24)]
@@ -760,13 +908,17 @@ def run(ctx):
         if nviol[0] >= 5:
             break
         # thorough: the 33 000 restrict/filter transitions of the 3x3 LTS get one of the two forms each
-        reps = range(nconc) if quick or e["op"] not in ("restrict_p", "filter_t") else (idx % 2,)
+        reps = range(nconc) if quick or e["op"] not in ("restrict_p", "filter_t", "read_fails", "qread_fails") else (idx % 2,)
         for c in reps:
             conc = concs[0] if c == 0 else concs[1 + (idx % 24)]
             path = paths[e["_f"]] + [e]
-            if c == 1 and e["op"] != "copy":
+            if c == 1 and e["op"] != "copy" and idx % 2 == 0:
                 # the same transition taken on a COPY of the collection: its source must not notice
                 path = paths[e["_f"]] + [copy_edge[e["_f"]], e]
+            elif c == 1 and e["op"] not in ("read_fails", "qread_fails"):
+                # ... and taken after a read()/qread() that FAILED on this object and was caught
+                fe = fail_edges[e["_f"]]
+                path = paths[e["_f"]] + [fe[(idx // 2) % len(fe)], e]
             one(path, conc, False, "edge")
         ctx.case_seen(("edge", e["_f"], e["op"], json.dumps(e["args"])), e["_f"] != e["_t"])
     mid = g.edges[len(g.edges) // 3]
@@ -776,11 +928,12 @@ def run(ctx):
 
     # 2b. random walks from DB() (long histories; queries checked after every call)
     nwalks, wlen = (250, 12) if quick else (1200, 25)
-    w8 = {"insert": 6, "read": 2, "reverse": 3, "copy": 1, "facet": 3, "restrict_p": 1, "filter_t": 1}
+    w8 = {"insert": 6, "read": 2, "reverse": 3, "copy": 1, "facet": 3, "restrict_p": 1, "filter_t": 1,
+          "read_fails": 2, "qread_fails": 2}
     for w in range(nwalks):
         if nviol[0] >= 5:
             break
-        path = g.walk(rng, g.init, wlen, weight=lambda x: w8[x["op"]] * (3 if x["_f"] != x["_t"] else 1))
+        path = g.walk(rng, g.init, wlen, weight=lambda x: w8[x["op"]] * (3 if x["_f"] != x["_t"] or x["op"].endswith("_fails") else 1))
         one(path, concs[w % len(concs)], True, "walk")
         ctx.case_seen(("walk", w), True)
     ctx.extra["behaviours_replayed"] = n_replayed
@@ -796,7 +949,9 @@ def run(ctx):
                         "closed_4x3_states": design["big"].distinct if "big" in design else None,
                         "retained_source_config_states": design["src"].distinct}
     ctx.extra["negative_control_spec"] = ["InsertNewTagStoresChars=TRUE -> TLC: invariant %s violated" % design["dev"].violated,
-                                          "ShallowCopy=TRUE -> TLC: invariant %s violated" % design["shallow"].violated]
+                                          "ShallowCopy=TRUE -> TLC: invariant %s violated" % design["shallow"].violated,
+                                          "NonAtomicRead=TRUE -> TLC: invariant %s violated" % design["nonatomic"].violated,
+                                          "NonAtomicQread=TRUE -> TLC: invariant %s violated" % design["qread"].violated]
     hits = 0
     if diverged:
         traces = [t for _, _, t in diverged]
@@ -896,7 +1051,7 @@ def replay(ctx, case):
         conc = Conc(cmap=case["conc"])
         junk = list(JUNK)
         d = replay_path(plan, [e["to"] for e in case["path"]], case["tables"], conc, random.Random(0), junk, True,
-                        [e["from"] for e in case["path"]])
+                        [e["from"] for e in case["path"]], [e.get("allowed") for e in case["path"]])
         if d is None:
             return None
         names = sorted({conc.name(n) for t in case["tables"] for n in t["names"]})
